@@ -70,7 +70,7 @@ describe('C11', 'other',
          'Every validator the property relies on is present and guards the Ok: identifier padding (G5i, exhaustive constant propagation over LEN x last byte), duplicate archetypes (G5ii), allocator slots bounds/duplicates/missing (G5iii), column/row readers push once per element and clean up exactly what was initialised (G5iv, G5v); a deserialised World passes the duplicate-component assertion (G3); wire shapes agree (X1, X3); walks (W, O on the serde walks and clean-up walks).',
          'absence of panics on absurd lengths; semantic validity of the resulting world under later operations')
 describe('C12', 'other',
-         'For every schedule of the generated family the compile-time Stages type equals the reference greedy partition by declared access (V-SCHED: exhaustive for 2-task schedules over the view alphabet, both directions); T3/T8 explain per cell; stages sequential and flags forwarded (S5); no blocking/synchronising primitive anywhere in the crate, so run_schedule only waits on its own joins and terminates on a 1-thread pool (S7).',
+         'For every schedule of the generated family the compile-time Stages type equals the reference greedy partition by declared access (V-SCHED: exhaustive for 2-task schedules over the view alphabet, both directions); T3/T8 explain per cell; every task of a stage that has not run yet is forked against the rest of its stage with rayon::join on every path (S1: no inline fast path that serialises it); stages sequential and flags forwarded (S5); no blocking/synchronising primitive anywhere in the crate, so run_schedule only waits on its own joins and terminates on a 1-thread pool (S7).',
          'that rayon actually uses two threads; wall-clock parallelism')
 describe('C13', 'other',
          'No slot lost or duplicated (P1, P2, P3, A1); one table per component set with lookup tables in step, purge-before-erase (P7); World.len and Archetype.length adjusted with every structural change on the same paths (P6, P9); locations kept current (P4, P5, P8, G5iii); deserialisation rejects duplicate tables (G5ii); clone_from clears destination-only tables (C10a).',
